@@ -45,6 +45,8 @@ struct CtlState {
 struct Ctl {
 	/// fast path of the free mode: the "decode_scheduler_run" yield point returns at once
 	paced: std::sync::atomic::AtomicBool,
+	/// iterations of the decoder loop begun (each pushes at most one frame)
+	iters: std::sync::atomic::AtomicU64,
 	m: Mutex<CtlState>,
 	cv: Condvar,
 }
@@ -52,11 +54,13 @@ impl Ctl {
 	fn new(mode: Mode) -> Arc<Ctl> {
 		Arc::new(Ctl {
 			paced: std::sync::atomic::AtomicBool::new(mode == Mode::Paced),
+			iters: std::sync::atomic::AtomicU64::new(0),
 			m: Mutex::new(CtlState { mode, permits: 0, at_yield: false, full_events: 0, ended: false }),
 			cv: Condvar::new(),
 		})
 	}
 	fn at_run(&self) {
+		self.iters.fetch_add(1, std::sync::atomic::Ordering::Relaxed);
 		if !self.paced.load(std::sync::atomic::Ordering::SeqCst) {
 			return;
 		}
@@ -524,6 +528,8 @@ struct Trace {
 	decs: Vec<u64>,
 	/// the harness's own bookkeeping says the decoder kept ahead throughout (paced mode: exact; free mode: by construction)
 	ahead: bool,
+	/// iterations of the decoder loop (an upper bound of the frames pushed; above the ring size the ring wrapped around)
+	iters: u64,
 }
 
 fn frames_of(sc: &Scenario) -> Vec<Frame> {
@@ -753,7 +759,8 @@ fn run_direct(ids: &Ids, sc: &Scenario) -> Trace {
 		// creation failed: the model predicts [1; code] for the side that panicked
 		*pending().lock().unwrap() = None;
 	}
-	Trace { st, sm, tab, panicked, decs, ahead }
+	let iters = ctl2.iters.load(std::sync::atomic::Ordering::Relaxed);
+	Trace { st, sm, tab, panicked, decs, ahead, iters }
 }
 
 // ------------------------------------------------------------------------------------------
@@ -951,55 +958,10 @@ fn gen_scenario(r: &mut Rng, model: bool, lead: Lead) -> Scenario {
 	let (sr, dev) = *r.pick(&[(4u32, 4u32), (1, 1), (1000, 1000), (1000, 500), (48000, 48000), (44100, 48000), (22050, 44100), (8, 16), (48000, 44100)]);
 	let dt = 1.0 / dev as f64;
 	let frame_ns = (1_000_000_000u64 / dev as u64).max(1);
-	let n = if model {
-		match r.below(10) {
-			0 => r.below(3) as usize,
-			1 | 2 => r.range(1, 6) as usize,
-			_ => r.range(4, 40) as usize,
-		}
-	} else {
-		match r.below(10) {
-			0 => r.below(4) as usize,
-			1 => r.range(16000, 40000) as usize,
-			_ => r.range(2, 600) as usize,
-		}
-	};
-	let frames = gen_frames(r, n);
-	let slice = if r.chance(1, 4) {
-		let a = r.below(n as u64 + 1) as usize;
-		let b = r.range(a as i64, n as i64) as usize;
-		Some((a, b))
-	} else {
-		None
-	};
-	let nf = match slice {
-		Some((a, b)) => b - a,
-		None => n,
-	};
-	let start = match r.below(6) {
-		0 | 1 | 2 => Pos::Smp(0),
-		3 => gen_pos(r, sr, nf + 3),
-		_ => gen_pos(r, sr, nf.saturating_sub(1)),
-	};
-	let lp = match r.below(10) {
-		0 | 1 | 2 | 3 => None,
-		4 => Some((Pos::Smp(0), End::End)),
-		5 => Some((gen_pos(r, sr, nf), End::End)),
-		6 => {
-			// possibly empty / inverted / beyond the end: must be handled alike
-			Some((gen_pos(r, sr, nf + 2), End::Cus(gen_pos(r, sr, nf + 2))))
-		}
-		_ => {
-			let a = r.below(nf as u64 + 1) as usize;
-			let b = r.range(a as i64, nf as i64) as usize;
-			Some((Pos::Smp(a), End::Cus(Pos::Smp(b))))
-		}
-	};
+	// the history first (its length decides how long a sound is interesting)
 	let paced_exact = lead != Lead::Free;
 	let big = !model && !paced_exact;
 	let rate = if paced_exact { Tgt::Fixed(gen_rate_value(r, false)) } else { gen_rate(r, big) };
-	let st = if !paced_exact && r.chance(1, 5) { gen_start(r, frame_ns) } else { Start::Imm };
-	let fade_in = if r.chance(1, 6) { Some(gen_tw(r, false, frame_ns)) } else { None };
 	let ncb = if model { r.range(2, 6) as usize } else { r.range(3, 14) as usize };
 	let mut budget: i64 = if model { 44 } else { i64::MAX };
 	let mut cbs = vec![];
@@ -1017,11 +979,11 @@ fn gen_scenario(r: &mut Rng, model: bool, lead: Lead) -> Scenario {
 			}
 		}
 		if !paced_exact && r.chance(1, 3) {
-			match r.below(7) {
-				0 | 1 => c.pause = Some(gen_tw(r, true, frame_ns)),
-				2 | 3 => c.resume = Some((if r.chance(1, 2) { gen_start(r, frame_ns) } else { Start::Imm }, gen_tw(r, false, frame_ns))),
-				4 => c.stop = Some(gen_tw(r, true, frame_ns)),
-				5 => {
+			match r.below(10) {
+				0 | 1 | 2 => c.pause = Some(gen_tw(r, true, frame_ns)),
+				3 | 4 | 5 => c.resume = Some((if r.chance(1, 2) { gen_start(r, frame_ns) } else { Start::Imm }, gen_tw(r, false, frame_ns))),
+				6 => c.stop = Some(gen_tw(r, true, frame_ns)),
+				7 | 8 => {
 					c.pause = Some(gen_tw(r, false, frame_ns));
 					c.resume = Some((Start::Imm, gen_tw(r, false, frame_ns)));
 				}
@@ -1045,6 +1007,49 @@ fn gen_scenario(r: &mut Rng, model: bool, lead: Lead) -> Scenario {
 			break;
 		}
 	}
+	// source frames the history would consume at its first rate
+	let total: usize = cbs.iter().map(|c| c.lens.iter().sum::<usize>()).sum();
+	let consume = ((total as f64 * sr as f64 * dt * tgt_max(&rate).max(0.1)).ceil() as usize).clamp(1, 60_000);
+	let n = match r.below(10) {
+		0 => r.below(4) as usize,
+		1 => r.range(1, 6) as usize,
+		2 if !model => r.range(16000, 40000) as usize,
+		// around what the history consumes: sometimes the sound ends inside it, sometimes not
+		_ => (consume / 2 + r.below(consume as u64 + 2) as usize + 3).min(if model { 48 } else { 60_000 }),
+	};
+	let frames = gen_frames(r, n);
+	let slice = if r.chance(1, 4) {
+		let a = r.below(n as u64 + 1) as usize;
+		let b = r.range(a as i64, n as i64) as usize;
+		Some((a, b))
+	} else {
+		None
+	};
+	let nf = match slice {
+		Some((a, b)) => b - a,
+		None => n,
+	};
+	let start = match r.below(6) {
+		0 | 1 | 2 => Pos::Smp(0),
+		3 => gen_pos(r, sr, nf + 3),
+		_ => gen_pos(r, sr, nf.saturating_sub(1)),
+	};
+	let lp = match r.below(10) {
+		0 | 1 | 2 => None,
+		3 | 4 => Some((Pos::Smp(0), End::End)),
+		5 => Some((gen_pos(r, sr, nf), End::End)),
+		6 => {
+			// possibly empty / inverted / beyond the end: must be handled alike
+			Some((gen_pos(r, sr, nf + 2), End::Cus(gen_pos(r, sr, nf + 2))))
+		}
+		_ => {
+			let a = r.below(nf as u64 + 1) as usize;
+			let b = r.range(a as i64, nf as i64) as usize;
+			Some((Pos::Smp(a), End::Cus(Pos::Smp(b))))
+		}
+	};
+	let st = if !paced_exact && r.chance(1, 5) { gen_start(r, frame_ns) } else { Start::Imm };
+	let fade_in = if r.chance(1, 6) { Some(gen_tw(r, false, frame_ns)) } else { None };
 	let packets = gen_packets(r, n);
 	let gran = *r.pick(&[1usize, 1, 2, 3, 7, 1000]);
 	let mut sc = Scenario { sr, dt, frames, slice, start, lp, st, vol: gen_db(r), rate, pan: gen_pan(r), fade_in, packets, gran, lead, cbs, outside: false };
@@ -1092,7 +1097,7 @@ fn describe(sc: &Scenario) -> String {
 
 fn submit(s: &mut Session, ids: &Ids, kind: &str, sc: &Scenario, to_model: bool) -> Trace {
 	let tr = run_direct(ids, sc);
-	let fast = true;
+	let fast = s.model_cases % 8 != 7;
 	let t = term(sc, fast, &tr.decs, &tr.tab);
 	let ok = monitors(s, &if to_model { t.clone() } else { describe(sc) }, sc, &tr);
 	let nontrivial = sc.cbs.iter().any(|c| c.cmds.any()) || sc.lp.is_some() || sc.slice.is_some() || tr.st.calls.iter().any(|c| c.2 == PlaybackState::Stopped);
@@ -1110,8 +1115,12 @@ fn submit(s: &mut Session, ids: &Ids, kind: &str, sc: &Scenario, to_model: bool)
 	if ok {
 		s.count(if tr.ahead { "pairs_equal" } else { "pairs_starved_model_only" });
 	}
+	if tr.iters > 2 * RING as u64 {
+		s.count("ring_wrapped_around");
+	}
 	for c in &tr.st.calls {
 		s.count(&format!("state_{:?}", c.2));
+		s.count(&format!("{}_{}", kind, if c.2 == PlaybackState::Stopped { "stopped_calls" } else { "live_calls" }));
 	}
 	tr
 }
@@ -1215,6 +1224,29 @@ fn manager_pair(s: &mut Session, ids: &Ids, r: &mut Rng) {
 	}
 }
 
+/// classes listed for C09 with status "known" in /verif/known_findings.json (entries are flat objects)
+fn known_classes() -> Vec<String> {
+	let mut out = vec![];
+	let Ok(text) = std::fs::read_to_string("/verif/known_findings.json") else { return out };
+	for obj in text.split('{').skip(2) {
+		let obj = obj.split('}').next().unwrap_or("");
+		let field = |name: &str| -> Option<String> {
+			let k = format!("\"{name}\"");
+			let i = obj.find(&k)?;
+			let rest = &obj[i + k.len()..];
+			let a = rest.find('"')?;
+			let b = rest[a + 1..].find('"')?;
+			Some(rest[a + 1..a + 1 + b].to_string())
+		};
+		if field("property").as_deref() == Some("C09") && field("status").as_deref() == Some("known") {
+			if let Some(c) = field("class") {
+				out.push(c);
+			}
+		}
+	}
+	out
+}
+
 /// the `*_refuted` witnesses of C09/Props.v on the implementation: each lies outside one clause of the guard, the
 /// model says the two sounds differ there; the case goes to the model comparison, and whether the implementation
 /// diverges as well is recorded
@@ -1244,6 +1276,8 @@ fn witnesses(s: &mut Session, ids: &Ids) {
 	let list: Vec<(&str, Scenario)> = vec![
 		// the decoder does not keep ahead: the starving lead of the paced mode on the witness's settings
 		("starved", base(1.5, None, 0, Lead::Script, vec![Cb { grant: 3, ..plain(4) }, Cb { grant: 20, ..plain(4) }])),
+		// the gap rule itself: one entry in the ring (not the seed), data not at its end, fraction 0.5: a silent chunk
+		("gap_one_entry", base(0.5, None, 0, Lead::Script, vec![Cb { grant: 3, ..plain(7) }, Cb { grant: 0, ..plain(2) }, Cb { grant: 9, ..plain(2) }])),
 		// a slice reaching beyond the audio
 		("slice_beyond_audio", base(1.5, Some((5, 11)), 0, Lead::Free, vec![plain(4), plain(4)])),
 		// a negative rate
@@ -1251,12 +1285,27 @@ fn witnesses(s: &mut Session, ids: &Ids) {
 		// rate -0.0, then set_playback_rate(1.0)
 		("negative_zero_rate", base(-0.0, None, 2, Lead::Free, vec![set_rate_one, plain(3)])),
 	];
+	let known = known_classes();
 	for (name, sc) in list {
 		let tr = submit(s, ids, &format!("witness_{name}"), &sc, true);
 		let differ = tr.st.calls.iter().zip(tr.sm.calls.iter()).any(|(a, b)| {
 			a.2 != b.2 || a.1.iter().zip(b.1.iter()).any(|(x, y)| obs32(x.left) != obs32(y.left) || obs32(x.right) != obs32(y.right))
 		});
 		s.count(&format!("witness_{name}_{}", if differ { "diverges" } else { "does_not_diverge" }));
+		// two of the witnesses are candidate findings (inputs one may call inside the property's quantifier): reported as
+		// monitor failures of their class once that class is listed as known, as notes until then
+		let class = match name {
+			"slice_beyond_audio" => Some("streaming_slice_beyond_audio"),
+			"negative_zero_rate" => Some("rate_negative_zero_plays_backwards"),
+			_ => None,
+		};
+		if let (true, Some(c)) = (differ, class) {
+			if known.iter().any(|k| k == c) {
+				s.fail(describe(&sc), format!("{name}: the static and the streaming sound differ (class {c})"), Some(c));
+			} else {
+				s.notes.push(format!("FINDING-CANDIDATE class={c}: reproduced on the implementation (not listed in known_findings.json, so not raised)"));
+			}
+		}
 		if differ {
 			let k = tr.st.calls.iter().zip(tr.sm.calls.iter()).position(|(a, b)| a.1.iter().zip(b.1.iter()).any(|(x, y)| obs32(x.left) != obs32(y.left))).unwrap_or(0);
 			s.notes.push(format!(
@@ -1274,7 +1323,7 @@ pub fn run(args: &Args) {
 	let mul = args.budget_mul;
 	let n_model: u64 = (if args.thorough { 6_000 } else { 500 }) * mul;
 	let n_paced: u64 = (if args.thorough { 2_400 } else { 200 }) * mul;
-	let n_big: u64 = (if args.thorough { 20_000 } else { 1_500 }) * mul;
+	let n_big: u64 = (if args.thorough { 15_000 } else { 1_200 }) * mul;
 	let n_mgr: u64 = (if args.thorough { 4_000 } else { 300 }) * mul;
 	let mut s = Session::new(
 		"C09",
@@ -1285,13 +1334,11 @@ pub fn run(args: &Args) {
 		"one case = one frame vector (random / index-coded samples, 0-40 frames for model cases, up to 40000 for monitor-only ones), settings (sound and device rates, start position in samples or seconds incl. beyond the end, slice, loop region incl. empty / inverted / beyond the end, start time, volume / rate / panning fixed or modulator-linked, fade-in), a scripted decoder over the same vector (packet sizes 1..all, seek granularity 1..1000 packets), and a history of callbacks (1-2 process calls of 1-256 frames) with volume / rate / panning / pause / resume / resume_at / stop commands; the real static and the real streaming sound (real decoder thread, kept ahead through the decode_scheduler yield points: free-running or paced with exactly tight / generous / starving leads) are driven side by side; monitors = the property (outputs bit-identical, states and finished() identical after every call, positions within one frame until the end); model cases compare both traces with the Coq model; distinct = distinct scenarios with a command, loop, slice or natural end",
 	);
 	let ids = ids();
-	let t_phase = Instant::now();
 	// 1. model cases, free-running decoder
 	for _ in 0..n_model {
 		let sc = gen_scenario(&mut rng, true, Lead::Free);
 		submit(&mut s, &ids, "pair_free", &sc, true);
 	}
-	eprintln!("phase1 {:?}", t_phase.elapsed());
 	// 2. model cases, paced decoder: exactly tight, generous, starving leads
 	for i in 0..n_paced {
 		let lead = match i % 4 {
@@ -1302,20 +1349,34 @@ pub fn run(args: &Args) {
 		let sc = gen_scenario(&mut rng, true, lead);
 		submit(&mut s, &ids, &format!("pair_paced_{lead:?}"), &sc, true);
 	}
-	eprintln!("phase2 {:?}", t_phase.elapsed());
 	// 3. monitor-only: long sounds, large rates, big buffers (ring wrap-around, refills while playing)
 	for _ in 0..n_big {
 		let sc = gen_scenario(&mut rng, false, Lead::Free);
 		submit(&mut s, &ids, "pair_big", &sc, false);
 	}
-	eprintln!("phase3 {:?}", t_phase.elapsed());
+	// 3a. heavy consumers: tens of thousands of frames per case, so that the 16384-entry ring wraps around several
+	// times and is refilled while the sound plays
+	for _ in 0..(n_big / 20) {
+		let mut sc = gen_scenario(&mut rng, false, Lead::Free);
+		sc.rate = Tgt::Fixed(20.0 + rng.below(40) as f64 + rng.dyadic_unit(2));
+		sc.dt = 1.0 / sc.sr as f64;
+		sc.st = Start::Imm;
+		for cb in &mut sc.cbs {
+			cb.cmds.rate = None;
+			cb.cmds.stop = None;
+			cb.lens = vec![*rng.pick(&[64usize, 100, 256])];
+		}
+		if sc.lp.is_none() && sc.frames.len() > 8 {
+			sc.lp = Some((Pos::Smp(1), End::End));
+		}
+		submit(&mut s, &ids, "pair_heavy", &sc, false);
+	}
 	// 3b. the Coq witnesses (`*_refuted`) replayed on the real code: outside the guard the two sounds do differ
 	witnesses(&mut s, &ids);
 	// 4. through two real managers
 	for _ in 0..n_mgr {
 		manager_pair(&mut s, &ids, &mut rng);
 	}
-	eprintln!("phase4 {:?}", t_phase.elapsed());
 	// every decoder thread must have ended now that its sound is gone (C10 proves it; checked here because a
 	// thread left behind would also mean a control block that no longer reports)
 	let t0 = Instant::now();
